@@ -247,6 +247,7 @@ func ExploreScenario(t *testing.T, sc *Scenario, deadline time.Time) ScenarioSta
 	var viols []FoundViolation
 	total, replayed, diverged, leaked := 0, 0, 0, 0
 	start := time.Now()
+	defer sc.Cleanup()
 	for k := 0; k <= sc.K; k++ {
 		e := &Explorer{t: t, sc: sc, deadline: deadline, states: map[uint64]bool{}, sigSeen: sigSeen}
 		e.stats = ScenarioStats{Scenario: sc.ID, Note: sc.Note, Outcomes: map[string]int{}}
